@@ -253,7 +253,7 @@ func runC04(c *Ctx) {
 		}
 	}
 	rng := c.Rng(1)
-	for i := 0; i < c.Pick(600, 12000); i++ {
+	for i := 0; i < c.Pick(600, 400000); i++ {
 		h := 3 + rng.Intn(2)
 		var seq []model.Outcome
 		for {
@@ -271,7 +271,7 @@ func runC04(c *Ctx) {
 	}
 	// connection loss after a partial reply / before the request is read, for every class
 	for i, cl := range c04Classes {
-		for rep := 0; rep < c.Pick(2, 20); rep++ {
+		for rep := 0; rep < c.Pick(2, 200); rep++ {
 			jobs = append(jobs, job{2, 1, cl, i + rep, nil, "partial-reply"})
 			jobs = append(jobs, job{2, 1, cl, i + rep, nil, "lost-before-read"})
 		}
